@@ -314,7 +314,11 @@ def probe_pipe_wouldblock():
     fd = s1.incoming.fileno()
     fcntl.fcntl(fd, fcntl.F_SETFL, fcntl.fcntl(fd, fcntl.F_GETFL) | os.O_NONBLOCK)
     frame = channel.Channel.FRAME_HEADER.pack(5, 0) + b"hello" + channel.Channel.FLUSHER
-    os.write(s2.outgoing.fileno(), frame[:7])            # header + two bytes; the rest is still on its way
+    wfd = s2.outgoing.fileno()
+    os.write(wfd, frame[:7])                             # header + two bytes; the rest is still on its way
+    timer = threading.Timer(0.15, lambda: os.write(wfd, frame[7:]))
+    timer.daemon = True
+    timer.start()
     ch = channel.Channel(s1, compress=False)
     try:
         got = ch.recv()
@@ -324,6 +328,7 @@ def probe_pipe_wouldblock():
         text = "recv raised %s(%s); stream.closed=%s (the writer was about to send the remaining %d bytes)" % (
             type(ex).__name__, ex, s1.closed, len(frame) - 7)
         lost = True
+    timer.join(2.0)
     for s_ in (s1, s2):
         try:
             s_.close()
